@@ -134,7 +134,8 @@ def run_check(check, tier, seed, replay=None):
         mcruns = []
         if not replay:
             for (mod, cfg) in list(check.mc) + (list(check.mc_thorough) if tier == "thorough" else []):
-                st, _ = core.tlc_mc(mod, cfg, pid + "-mc")
+                # thorough tier: with TLC's coverage statistics (vacuity: actions never taken, expressions never evaluated)
+                st, _ = core.tlc_mc(mod, cfg, pid + "-mc", extra=("-coverage", "1") if tier == "thorough" else ())
                 mcstats["states"] += st["states"]
                 mcstats["distinct"] += st["distinct"]
                 mcruns.append({"cfg": cfg, **st})
